@@ -18,6 +18,16 @@ import (
 type Dumper struct {
 	// AnyID maps a value stored in an `any`-typed field to its pool id.
 	AnyID func(v any) int
+	// skipSelf: while set, the embedded ExpBase field of the outermost structs is not printed
+	skipSelf bool
+}
+
+// ValueNoSelf dumps x without its own self handle (the embedded ExpBase of the value itself, also
+// through embedded type-state structs); nested values are printed in full.
+func (d *Dumper) ValueNoSelf(x any) string {
+	d.skipSelf = true
+	defer func() { d.skipSelf = false }()
+	return d.Value(x)
 }
 
 func typeName(t reflect.Type) string {
@@ -80,10 +90,19 @@ func (d *Dumper) dump(sb *strings.Builder, v reflect.Value) {
 		d.dump(sb, p)
 	case reflect.Struct:
 		sb.WriteString("(" + typeName(t))
+		skipping := d.skipSelf
 		for i := 0; i < t.NumField(); i++ {
 			sb.WriteString(" ")
+			f := t.Field(i)
+			if skipping && f.Anonymous && f.Type.Name() == "ExpBase" {
+				sb.WriteString("(self)")
+				continue
+			}
+			// only embedded structs continue the "outermost value"
+			d.skipSelf = skipping && f.Anonymous && f.Type.Kind() == reflect.Struct
 			d.dump(sb, access(v.Field(i)))
 		}
+		d.skipSelf = false
 		sb.WriteString(")")
 	case reflect.Slice:
 		if v.IsNil() {
